@@ -9,16 +9,16 @@ import (
 type Kind int
 
 const (
-	KScalar   Kind = iota // one fixed-width primitive
-	KCount                // u32 element/byte count of Operand
-	KRaw                  // len(Operand) raw bytes
-	KRec                  // nested record
-	KLoop                 // per-element repetition over Operand
-	KMapLoop              // per-entry repetition over Operand: Key then Body
-	KOpt                  // optional tagged member: tag byte + Body when Operand != nil
-	KConstByte            // literal byte (terminator)
-	KPrefix               // u32 length prefix; Tag = K in Size()-K (writers)
-	KSwitch               // decoder dispatch on a tag byte; Cases
+	KScalar    Kind = iota // one fixed-width primitive
+	KCount                 // u32 element/byte count of Operand
+	KRaw                   // len(Operand) raw bytes
+	KRec                   // nested record
+	KLoop                  // per-element repetition over Operand
+	KMapLoop               // per-entry repetition over Operand: Key then Body
+	KOpt                   // optional tagged member: tag byte + Body when Operand != nil
+	KConstByte             // literal byte (terminator)
+	KPrefix                // u32 length prefix; Tag = K in Size()-K (writers)
+	KSwitch                // decoder dispatch on a tag byte; Cases
 	KUnknown
 )
 
